@@ -124,6 +124,7 @@ class Tr:
         self.struct_order = []
         self.notes = {}                # lean name -> list of notes (unmodelled aspects)
         self.cur_notes = []
+        self.const_defs = OrderedDict()
 
     # ------------------------------------------------------------------ types
     def rust_ty(self, ty, ctx):
@@ -173,18 +174,31 @@ class Tr:
             if m.group(1) == 'OnceLock':
                 return ('cache', inner)
             return inner
-        m = re.match(r'^\[\s*(.*?)\s*(;.*)?\]$', t)
-        if m:
-            return ('list', self.rust_ty(m.group(1), ctx))
+        if t.startswith('[') and t.endswith(']'):
+            inner = t[1:-1]
+            depth = 0
+            cut = len(inner)
+            for i, ch in enumerate(inner):
+                if ch in '[(<':
+                    depth += 1
+                elif ch in '])>':
+                    depth -= 1
+                elif ch == ';' and depth == 0:
+                    cut = i
+                    break
+            return ('list', self.rust_ty(inner[:cut].strip(), ctx))
         m = re.match(r'^Result\s*<\s*(.*)\s*,\s*([^,<>]*)\s*>$', t)
         if m:
             return ('except', self.rust_ty(m.group(1), ctx))
+        m = re.match(r'^(Categorical|Gaussian|Bernoulli|Poisson|Beta|InvGamma|InvGaussian|UnitPowerLaw|MvGaussian)Data\s*<\s*(?:\'\w+\s*,\s*)?(.*)\s*>$', t)
+        if m:
+            return self.rust_ty(f'DataOrSuffStat < {m.group(2)} , {m.group(1)} >', ctx)
         m = re.match(r'^DataOrSuffStat\s*<\s*(.*)\s*,\s*([^,]*)\s*>$', t)
         if m:
             x = self.rust_ty(m.group(1), ctx)
             fx = m.group(2).strip()
             st = self.stat_of(fx, ctx)
-            return ('dos', x, st)
+            return ('dos', x, st, fx if fx in self.reg.structs else (ctx.generic_map.get(fx, (None, fx))[1] if ctx else fx))
         if t.startswith('(') and t.endswith(')'):
             parts = split_top(t[1:-1])
             return ('tup', tuple(self.rust_ty(p, ctx) for p in parts))
